@@ -187,6 +187,35 @@ class Angle:
         self.rate = rate
         ENV.assume(self.c * self.c + self.s * self.s == 1)
 
+    def plus_pi(self):
+        a = Angle.__new__(Angle); a.c, a.s, a.rate = -self.c, -self.s, self.rate
+        return a
+
+    def __rmul__(self, n):
+        if n == 2:                                   # 2*angle by the double-angle formulas
+            a = self + self
+            if hasattr(self, "yx"):
+                y, x = self.yx                       # 2*atan2(y,x) > pi  <=>  y >= 0 and x < 0
+                a.gt_pi = z3.And(y >= 0, x < 0)
+            return a
+        return NotImplemented
+    __mul__ = __rmul__
+
+    def __sub__(self, o):
+        if isinstance(o, PiMult):
+            return self if o.k % 2 == 0 else self.plus_pi()
+        if isinstance(o, Angle):
+            return self + (-o)
+        return NotImplemented
+
+    def __gt__(self, o):
+        if isinstance(o, PiMult) and o.k == 1 and hasattr(self, "gt_pi"):
+            return self.gt_pi
+        raise TypeError("comparison of a symbolic angle that the (cos,sin) abstraction cannot decide")
+
+    def __truediv__(self, o):
+        raise TypeError("fraction of a symbolic angle is not representable in the (cos,sin) abstraction")
+
     def __add__(self, o):
         a = Angle.__new__(Angle)
         a.c, a.s = self.c * o.c - self.s * o.s, self.s * o.c + self.c * o.s
@@ -211,6 +240,36 @@ def _cs_pair(e):
     return _TRIG[k][0], _TRIG[k][1]
 
 
+class PiMult:
+    """integer multiple of pi (the only way the constant Pi enters angle arithmetic here)"""
+    def __init__(self, k=1): self.k = k
+    def __rmul__(self, n):
+        if isinstance(n, int): return PiMult(self.k * n)
+        return NotImplemented
+    __mul__ = __rmul__
+    def __neg__(self): return PiMult(-self.k)
+    def __rsub__(self, o): return NotImplemented
+    def __sub__(self, o):
+        if isinstance(o, Angle):                      # k*pi - angle
+            a = -o
+            return a if self.k % 2 == 0 else a.plus_pi()
+        return NotImplemented
+
+
+def atan2_(y, x):
+    """atan2 as an Angle A known through (c,s): c*rho == x, s*rho == y, rho = sqrt(x^2+y^2) > 0
+    (the domain condition (x,y) != (0,0) becomes a side condition rho > 0)"""
+    y, x = D.lift(y), D.lift(x)
+    a = Angle.__new__(Angle)
+    n = ENV.new("atan2")
+    a.c, a.s = z3.Real(str(n) + "_c"), z3.Real(str(n) + "_s")
+    rho = z3.Real(str(n) + "_rho")
+    ENV.assume(z3.And(rho > 0, rho * rho == _raw(x) * _raw(x) + _raw(y) * _raw(y), a.c * rho == _raw(x), a.s * rho == _raw(y)))
+    a.rate = None
+    a.yx = (_raw(y), _raw(x))
+    return a
+
+
 def _cosv(v):
     return cos(v) if isinstance(v, D) else _cs_pair(_num(v))[0]
 
@@ -219,7 +278,18 @@ def _sinv(v):
     return sin(v) if isinstance(v, D) else _cs_pair(_num(v))[1]
 
 
+def _exact_zero(a):
+    if isinstance(a, int) and not isinstance(a, bool):
+        return a == 0
+    if isinstance(a, D) and not isinstance(a.v, D):
+        v = z3.simplify(a.v)
+        return z3.is_rational_value(v) and v.as_fraction() == 0
+    return False
+
+
 def cos(a):
+    if _exact_zero(a):
+        return D(1)
     if isinstance(a, Angle):
         return D(a.c) if a.rate is None else D(a.c, _neg(_mul(a.s, a.rate)))
     if isinstance(a, D):
@@ -228,6 +298,8 @@ def cos(a):
 
 
 def sin(a):
+    if _exact_zero(a):
+        return D(0)
     if isinstance(a, Angle):
         return D(a.s) if a.rate is None else D(a.s, _mul(a.c, a.rate))
     if isinstance(a, D):
@@ -301,7 +373,7 @@ class Vec:
     def size(self): return len(self.e)
     def __call__(self, i): return self.e[i]
     def __getitem__(self, i): return self.e[i]
-    def __setitem__(self, i, v): self.e[i] = _z(v)
+    def __setitem__(self, i, v): self.e[i] = v if isinstance(v, Angle) else _z(v)
     def __iter__(self): return iter(self.e)
     def _new(self, e): return type(self)(list(e))
     def __add__(a, b): return a._new(x + y for x, y in zip(a.e, b.e))
